@@ -167,8 +167,8 @@ static void *reader_thread(void *arg) {
 	return NULL;
 }
 static bool scen_reader(void) {
-	/* P = number of threads, J: 0 = uncompressed, 1 = lz4, 2 = zlib */
-	if (g_rfd < 0) { tkv e[8]; writer_input(e, 6); tcfg cfg = { 0 }; cfg.comp = J == 0 ? 0 : J == 1 ? 3 : 2; cfg.block_size = 1024; g_rfd = tbl_write(&cfg, e, 6, NULL); }
+	/* P = number of threads, J selects the table's compression: 0 none, 1 lz4, 2 zlib, 3 zstd, 4 snappy, 5 lz4hc */
+	if (g_rfd < 0) { tkv e[8]; writer_input(e, 6); tcfg cfg = { 0 }; { static const int CM[6] = { 0, 3, 2, 5, 1, 4 }; cfg.comp = CM[J % 6]; }   /* none, lz4, zlib, zstd, snappy, lz4hc */ cfg.block_size = 1024; g_rfd = tbl_write(&cfg, e, 6, NULL); }
 	struct mtbl_reader_options *ro = mtbl_reader_options_init(); mtbl_reader_options_set_verify_checksums(ro, true);
 	g_reader = mtbl_reader_init_fd(g_rfd, ro); mtbl_reader_options_destroy(&ro);
 	g_rd_err = 0;
@@ -296,8 +296,9 @@ int main(int argc, char **argv) {
 		static char sc[64]; static uint8_t pfx[VS_MAXPTS]; int np = 0, off = 0;
 		if (sscanf(vh_case_arg, "V:%63[^:]:%d:%d:%d:%d:%n", sc, &P, &J, &SPUR, &UNLOCKPTS, &off) < 5) return 2;
 		SCEN = sc; BOUND = 99;
+		for (int i = 0; i < vh_argc; i++) if (!strncmp(vh_argv[i], "comp=", 5)) g_wcomp = atoi(vh_argv[i] + 5);   /* the driver passes the job's arguments on replay */
 		const char *s = vh_case_arg + off; while (*s) { int v, o2; if (sscanf(s, "%d%n", &v, &o2) < 1) break; pfx[np++] = v; s += o2; if (*s == '.') s++; }
-		if (!strncmp(SCEN, "writer", 6)) { g_wcomp = 0; tkv e[8]; writer_input(e, J); tcfg cfg = { 0 }; cfg.block_size = 1024; int fd = tbl_write(&cfg, e, J, NULL); g_base = tbl_slurp(fd, &g_baselen); close(fd); }
+		if (!strncmp(SCEN, "writer", 6)) { tkv e[8]; writer_input(e, J); tcfg cfg = { 0 }; cfg.comp = g_wcomp; cfg.block_size = 1024; int fd = tbl_write(&cfg, e, J, NULL); g_base = tbl_slurp(fd, &g_baselen); close(fd); }
 		vh_case_begin(render, NULL);
 		run_once(pfx, np, true); run_once(pfx, np, true);   /* twice: the observation must be identical */
 		vh_case_end();
